@@ -284,6 +284,9 @@ func And(as ...*Term) *Term {
 	}
 	for _, a := range out {
 		if a.Op == "not" && seen[a.Args[0].id] {
+			if debugConflict != nil {
+				debugConflict(a)
+			}
 			return False
 		}
 	}
@@ -295,6 +298,8 @@ func And(as ...*Term) *Term {
 	}
 	return mk("and", SBool, "", nil, out...)
 }
+
+var debugConflict func(*Term)
 
 func Or(as ...*Term) *Term {
 	var out []*Term
